@@ -1,4 +1,5 @@
 extern crate rdp;
+extern crate yasna;
 mod util;
 mod hooks;
 mod alloc;
@@ -12,6 +13,8 @@ mod negotiate;
 mod ntlm;
 mod ntlmauth;
 mod codec;
+mod codec18;
+mod codec18_der;
 
 use std::io::{self, BufRead, Write};
 
@@ -35,6 +38,13 @@ fn dispatch(op: &str, args: &[&str]) -> String {
         "bmp" => codec::op_bmp(args),
         "ord16" => codec::op_ord16(args),
         "pl32" => codec::op_pl32(args),
+        "msg" => codec18::op_msg(args),
+        "rd" => codec18::op_rd(args),
+        "per" => codec18::op_per(args),
+        "der" => codec18_der::op_der(args),
+        "mcs" => codec18_der::op_mcs(args),
+        "cssp" => codec18_der::op_cssp(args),
+        "gcc18" => codec18_der::op_gcc(args),
         _ => format!("unknown-op:{}", op),
     }
 }
